@@ -86,12 +86,26 @@ def forall(lo, hi, body, patterns=None):
     return all(bool(body(j)) for j in range(int(lo), int(hi)))
 
 
-def exists(lo, hi, body):
+def exists(lo, hi, body, witness=None):
+    """exists q in [lo,hi). body(q).  `witness` (symbolic mode only) is a candidate term offered to the solver:
+    Exists(...) or body(witness) -- logically equivalent to the plain Exists, a proof hint only."""
     if is_sym(lo, hi) or _symbolic_mode():
         q = z3.Int(eng().fresh_name("q"))
         zlo, zhi = A._zi(lo), A._zi(hi)
-        return SBool(z3.Exists([q], z3.And(q >= zlo, q < zhi, zbool(body(SInt(q))))))
+        ex = z3.Exists([q], z3.And(q >= zlo, q < zhi, zbool(body(SInt(q)))))
+        if witness is not None:
+            w = A._zi(witness)
+            return SBool(z3.Or(ex, z3.And(w >= zlo, w < zhi, zbool(body(SInt(w))))))
+        return SBool(ex)
     return any(bool(body(j)) for j in range(int(lo), int(hi)))
+
+
+def rank_witness(arr, pos):
+    """proof hint: if `arr` enumerates the true positions of a mask (nonzero model), the rank of `pos`"""
+    rk = getattr(arr, "_rank", None)
+    if rk is None:
+        return None
+    return SInt(rk(A._zi(pos)))
 
 
 def _trigger(t):
@@ -149,10 +163,11 @@ def eq(a, b):
         r = (a == b)
         return r if isinstance(r, SBool) else SBool(zbool(r))
     if isinstance(a, (float, _np.floating)) or isinstance(b, (float, _np.floating)):
+        tol = 4e-6 if (isinstance(a, _np.float32) or isinstance(b, _np.float32)) else TOL
         a, b = float(a), float(b)
         if a == b:
             return True
-        return abs(a - b) <= TOL * max(1.0, abs(a), abs(b))
+        return abs(a - b) <= tol * max(1.0, abs(a), abs(b))
     return a == b
 
 
